@@ -15,6 +15,15 @@ Definition edges_complete (c_requirements : vkey -> res (list req))
     keep marker_true (extras_in_force g i) d = Ok true ->
     exists j, In (i, j, rq_ver d, rq_type d) (g_edges g).
 
+(* the false-marker clause as the property states it: an edge labelled with a requirement d of
+   its source version exists only if d's marker is true for the extras requested of the source *)
+Definition false_marker_clause (c_requirements : vkey -> res (list req))
+           (marker_true : bytes -> list bytes -> res bool) (g : graph) : Prop :=
+  forall i j v w l d, nth_error (g_nodes g) i = Some v -> nth_error (g_nodes g) j = Some w ->
+    c_requirements v = Ok l -> In d l -> vk_name w = rq_name d ->
+    In (i, j, rq_ver d, rq_type d) (g_edges g) ->
+    keep marker_true (extras_in_force g i) d = Ok true.
+
 (* ---------- boolean checks of the hypotheses on a table client ---------- *)
 Fixpoint nodup_bytes_b (l : list bytes) : bool :=
   match l with
